@@ -54,7 +54,8 @@ def generate(rng, n):
             pool[1] = copy.deepcopy(pool[0])
         ops = []
         for _ in range(rng.randint(1, 9)):
-            arch = rng.choice(ARCHES) if rng.random() < 0.8 else rng.choice(BAD_ARCHES)
+            k = rng.random()
+            arch = rng.choice(ARCHES) if k < 0.7 else (rng.choice(R["RPM_ARCHES"]) if k < 0.8 else rng.choice(BAD_ARCHES))
             ops.append([rng.choice(VARIANTS), arch, rng.randrange(len(pool))])
         ver = rng.choice([None, None, "1.2", "1.1", "1.0", "0.9", "1.10", "2.0"])   # None = fresh Images(), version untouched
         cases.append({"version": ver, "compose": valid_compose(rng, R), "pool": pool, "ops": ops})
